@@ -1381,3 +1381,19 @@ VP("C19-R3D-mut-options-lose-mask", "C10", "options dict handed to nested to_tre
 VP("C19-R3D-mut-config-list-never", "C10", "helper deciding 'list of configurations' rejects every list: lists of configurations go to the encoder unmasked", "C19-R3D", CORE,
    "        if not isinstance(value, list) or not value:\n            return False\n        return not any(",
    "        if isinstance(value, list) or not value:\n            return False\n        return not any(")
+VP("C20-R3C-mut-ctor-has-virtual", "C20", "comprehension form: constructor arguments no longer exclude virtual fields", "C20-R3C", "cincoconfig/stubs.py",
+   "        annotation for key, annotation in members.items() if key not in virtual\n", "        annotation for key, annotation in members.items()\n")
+VP("C20-R3C-mut-members-drop-virtual", "C20", "comprehension form: virtual fields missing from the class body", "C20-R3C", "cincoconfig/stubs.py",
+   "        if key not in methods\n    }", "        if key not in methods and key not in virtual\n    }")
+VP("C20-R3C-mut-methods-all", "C20", "comprehension form: every field rendered as a method", "C20-R3C", "cincoconfig/stubs.py",
+   "        if isinstance(field, InstanceMethodField) and key not in virtual\n", "        if key not in virtual\n")
+VP("C20-R3C-mut-varkw-dropped", "C20", "argspec by attribute: **kwargs no longer rendered", "C20-R3C", "cincoconfig/stubs.py",
+   '    if spec.varkw:\n        items.append("**%s" % spec.varkw)\n', "")
+VP("C20-R3D-mut-row-dropped", "C20", "dispatch table loses the Schema row: sub-schemas raise TypeError", "C20-R3D", STUBS,
+   "    (Schema, lambda field: Schema),\n", "")
+VP("C20-R3D-mut-ctor-virtual", "C20", "append form: virtual fields become constructor arguments", "C20-R3D", STUBS,
+   "        if not is_virtual:\n            attrs.append(annotation)", "        attrs.append(annotation)")
+VP("C20-R3D-mut-methods-virtual-first", "C20", "append form: methods test drops the instance-method check", "C20-R3D", STUBS,
+   "        if not is_virtual and isinstance(field, InstanceMethodField):", "        if not is_virtual:")
+VP("C20-R3D-mut-kwonly-unused", "C20", "argspec accessor: keyword-only parameters no longer rendered", "C20-R3D", STUBS,
+   "    args, varargs, varkw, _, kwonlyargs, _, annotations = field.argspec", "    args, varargs, varkw, _, _kw, _, annotations = field.argspec\n    kwonlyargs = []")
